@@ -9,7 +9,7 @@ package stream
 
 //@ pred be32(b, i) = b[i]*16777216 + b[i+1]*65536 + b[i+2]*256 + b[i+3]
 //@ pred sealingOn(s) = s.encrypted && s.gcm != nil
-//@ pred digestsWF(s) = (s.finalSendDigest != nil ==> len(s.finalSendDigest) == 32) && (s.finalRecvDigest != nil ==> len(s.finalRecvDigest) == 32)
+//@ pred digestsWF(s) = (s.finalSendDigest != nil ==> len(s.finalSendDigest) == 32) && (s.finalRecvDigest != nil ==> len(s.finalRecvDigest) == 32) && !typeis(s.reader, "*bytes.Buffer")
 //@ pred buffersSeparate(s) = ref(s.frameBuf) >= 0 && (ref(s.frameBuf) == 0 || ref(s.frameBuf) != ref(s.sendBuffer) && ref(s.frameBuf) != ref(s.receiveBuffer) && ref(s.frameBuf) != ref(s.finalSendDigest) && ref(s.frameBuf) != ref(s.finalRecvDigest) && ref(s.frameBuf) != ref(s.encryptKey))
 //@ pred streamInv(s) = digestsWF(s) && buffersSeparate(s) && 0 <= s.bytesRead && s.bytesRead <= len(s.receiveBuffer)
 
@@ -103,6 +103,7 @@ package stream
 
 //@ func (*Stream).readWithContext
 //@   props C01 C19
+//@   requires reader_is_conn: !typeis(s.reader, "*bytes.Buffer")
 //@   assigns data, rdCount, rdTotal, rdLast, rdFail, ctxClock, afCtx, afCount
 //@   ensures read_ok: err == nil ==> rdCount == old(rdCount) + 1 && rdTotal == old(rdTotal) + len(data) && rdLast == str(data) && rdFail == old(rdFail)
 //@   ensures read_fail: err != nil ==> rdCount <= old(rdCount) + 1
@@ -152,6 +153,8 @@ package stream
 //@   ensures ctr_step: [C02] (err == nil && opening ==> s.decryptCounter == (ctr0 + 1) % 4294967296) && (err != nil || !opening ==> s.decryptCounter == ctr0)
 //@   ensures err_nodata: [C02] err != nil ==> result == nil && endFlag == 0 && openOKCount == old(openOKCount)
 //@   ensures flag_range: err == nil ==> endFlag <= 10
+//@   ensures bounded: [C13] err == nil ==> len(result) <= 1048576 + 32
+//@   ensures ok_monotone: openOKCount >= old(openOKCount)
 //@   ensures plain_is_wire: [C01] err == nil && !opening ==> openCount == old(openCount) && (len(result) == 0 ==> rdCount == old(rdCount) + 1) && (len(result) > 0 ==> rdCount == old(rdCount) + 2 && str(result) == rdLast)
 //@   ensures reject_justified: [C01] err != nil && rdFail == old(rdFail) && rdCount == old(rdCount) + 1 && ctxErrAt(ctx, ctxClock) == nil ==> be32(rdLast, 1) > wireLimit(old(s.gcm) != nil) || rdLast[0] > 10 || (be32(rdLast, 1) == 0 && opening)
 //@   ensures consumed: [C13] err == nil ==> rdTotal == old(rdTotal) + 5 + len(result) + ite(opening, 16 + ivlen, 0)
@@ -175,3 +178,112 @@ package stream
 //@   ensures digest_covers_wire: [C04] err == nil && old(s.recvDigest != nil && s.finalRecvDigest == nil) && !opening ==> s.recvDigestWritten && hashWrites == old(hashWrites) + ite(len(result) > 0, 2, 1)
 //@   ensures digest_frozen_after: [C04] old(s.finalRecvDigest) != nil ==> hashWrites == old(hashWrites) && s.finalRecvDigest == old(s.finalRecvDigest)
 //@   ensures wf_kept: digestsWF(s)
+
+//@ func (*Stream).SendMessage
+//@   inline
+//@ func (*Stream).SendPartialMessage
+//@   inline
+
+//@ func (*Stream).WriteFrame
+//@   props C01 C12 C04 C09
+//@   requires wf: digestsWF(s) && buffersSeparate(s)
+//@   requires noalias: ref(data) != ref(s.frameBuf) || ref(data) == 0
+//@   assigns s.frameBuf, elems(s.frameBuf), s.sendDigestWritten, hashWrites, wrCount, wrLast, ctxClock, afCtx, afCount, s.finishedSendAAD, s.finalSendDigest, s.finalRecvDigest, s.encryptCounter, sealCount, sealNonce, sealAAD, sealPT, sealObj, sealOut
+//@   let sealing = old(sealingOn(s))
+//@   let wl = len(data) + ite(sealing, 16 + ite(old(s.encryptCounter) == 0, 16, 0), 0)
+//@   ensures too_large: len(data) > 1048576 ==> err != nil && wrCount == old(wrCount)
+//@   ensures size_ok: [C01] err == nil ==> wl <= wireLimit(sealing) && len(data) <= 1048576
+//@   ensures hdr: [C01] err == nil ==> wrCount == old(wrCount) + 1 && len(wrLast) == 5 + wl && wrLast[0] == ite(isEOM, 1, 0) && be32(wrLast, 1) == wl
+//@   ensures plain_payload: [C01] err == nil && !sealing ==> forall i :: 0 <= i && i < len(data) ==> wrLast[5+i] == old(data[i])
+//@   ensures sealed: [C01 C12 C09] err == nil && sealing ==> sealCount == old(sealCount) + 1 && sealPT == old(str(data)) && sealObj == s.gcm
+//@   ensures plain_noseal: [C09] !sealing ==> sealCount == old(sealCount)
+//@   ensures wf_kept: digestsWF(s) && buffersSeparate(s)
+
+//@ func (*Stream).ReadFrame (s, ctx) (result, isEOM, err)
+//@   props C02 C01 C13
+//@   requires wf: digestsWF(s)
+//@   assigns s.finishedRecvAAD, s.finalSendDigest, s.finalRecvDigest, s.decryptCounter, s.decryptIV, s.recvDigestWritten, openCount, openNonce, openAAD, openCT, openObj, openPT, openOKCount, hashWrites, rdCount, rdTotal, rdLast, rdFail, ctxClock, afCtx, afCount
+//@   ensures auth_gate: [C02] err == nil && old(sealingOn(s)) ==> openOKCount == old(openOKCount) + 1 && openObj == s.gcm && str(result) == openPT
+//@   ensures eom_is_authenticated_flag: [C02] err == nil && old(sealingOn(s)) ==> isEOM == (openAAD[len(openAAD) - 5] != 0)
+//@   ensures err_nodata: [C02] err != nil ==> result == nil && !isEOM && openOKCount == old(openOKCount)
+//@   ensures consumed: [C13] err == nil ==> rdTotal == old(rdTotal) + 5 + len(result) + ite(old(sealingOn(s)), 16 + ite(old(s.decryptCounter) == 0, 16, 0), 0)
+//@   ensures bounded: [C13] err == nil ==> len(result) <= 1048576 + 32
+//@   ensures wf_kept: digestsWF(s)
+
+//@ func (*Stream).readNextFrame
+//@   props C01 C02 C13
+//@   requires wf: digestsWF(s)
+//@   assigns s.receiveBuffer, elems(s.receiveBuffer), s.totalMsgBytes, s.finishedRecvAAD, s.finalSendDigest, s.finalRecvDigest, s.decryptCounter, s.decryptIV, s.recvDigestWritten, openCount, openNonce, openAAD, openCT, openObj, openPT, openOKCount, hashWrites, rdCount, rdTotal, rdLast, rdFail, ctxClock, afCtx, afCount
+//@   loop 1 invariant wf: digestsWF(s) && len(s.receiveBuffer) >= old(len(s.receiveBuffer)) && openOKCount >= old(openOKCount)
+//@   loop 1 invariant buf_own: ref(s.receiveBuffer) == old(ref(s.receiveBuffer)) || fresh(s.receiveBuffer)
+//@   ensures ok: err == nil ==> s.totalMsgBytes == len(s.receiveBuffer) && len(s.receiveBuffer) >= old(len(s.receiveBuffer))
+//@   ensures authenticated: [C02] err == nil && old(sealingOn(s)) ==> openOKCount > old(openOKCount)
+//@   ensures wf_kept: digestsWF(s)
+
+//@ func (*Stream).ReceiveCompleteMessage (s, ctx) (result, err)
+//@   props C01 C02 C13
+//@   requires wf: digestsWF(s)
+//@   assigns s.finishedRecvAAD, s.finalSendDigest, s.finalRecvDigest, s.decryptCounter, s.decryptIV, s.recvDigestWritten, openCount, openNonce, openAAD, openCT, openObj, openPT, openOKCount, hashWrites, rdCount, rdTotal, rdLast, rdFail, ctxClock, afCtx, afCount
+//@   loop 1 invariant wf: digestsWF(s) && openOKCount >= old(openOKCount) && rdTotal >= old(rdTotal) + len(completeMessage)
+//@   loop 1 invariant msg_own: completeMessage == nil || fresh(completeMessage)
+//@   ensures no_partial: [C02] err != nil ==> result == nil
+//@   ensures authenticated: [C02] err == nil && old(sealingOn(s)) ==> openOKCount > old(openOKCount)
+//@   ensures proportional: [C13] err == nil ==> len(result) <= rdTotal - old(rdTotal)
+//@   ensures wf_kept: digestsWF(s)
+
+//@ func (*Stream).flushPartialFrame
+//@   props C01
+//@   requires wf: digestsWF(s) && buffersSeparate(s)
+//@   assigns s.sendBuffer, s.frameBuf, elems(s.frameBuf), s.sendDigestWritten, hashWrites, wrCount, wrLast, ctxClock, afCtx, afCount, s.finishedSendAAD, s.finalSendDigest, s.finalRecvDigest, s.encryptCounter, sealCount, sealNonce, sealAAD, sealPT, sealObj, sealOut
+//@   ensures empty_noop: old(len(s.sendBuffer)) == 0 ==> err == nil && wrCount == old(wrCount)
+//@   ensures flushed: err == nil && old(len(s.sendBuffer)) > 0 ==> wrCount == old(wrCount) + 1 && wrLast[0] == 0 && len(s.sendBuffer) == 0 && s.sendBuffer == nil
+//@   ensures kept_on_error: err != nil ==> s.sendBuffer == old(s.sendBuffer)
+//@   ensures wf_kept: digestsWF(s) && buffersSeparate(s)
+
+//@ func (*Stream).WriteMessage
+//@   props C01
+//@   requires wf: digestsWF(s) && buffersSeparate(s)
+//@   assigns s.sendBuffer, elems(s.sendBuffer), s.frameBuf, elems(s.frameBuf), s.sendDigestWritten, hashWrites, wrCount, wrLast, ctxClock, afCtx, afCount, s.finishedSendAAD, s.finalSendDigest, s.finalRecvDigest, s.encryptCounter, sealCount, sealNonce, sealAAD, sealPT, sealObj, sealOut
+//@   ensures after_eom: old(s.sendEOM) ==> err != nil && wrCount == old(wrCount) && s.sendBuffer == old(s.sendBuffer)
+//@   ensures buffered: err == nil && old(len(s.sendBuffer)) + len(data) < 4096 ==> wrCount == old(wrCount) && len(s.sendBuffer) == old(len(s.sendBuffer)) + len(data)
+//@   ensures flushed: err == nil && old(len(s.sendBuffer)) + len(data) >= 4096 ==> wrCount == old(wrCount) + 1 && wrLast[0] == 0 && len(s.sendBuffer) == 0
+//@   ensures wf_kept: digestsWF(s) && buffersSeparate(s)
+
+//@ func (*Stream).EndMessage
+//@   props C01
+//@   requires wf: digestsWF(s) && buffersSeparate(s)
+//@   assigns s.sendEOM, s.sendBuffer, s.frameBuf, elems(s.frameBuf), s.sendDigestWritten, hashWrites, wrCount, wrLast, ctxClock, afCtx, afCount, s.finishedSendAAD, s.finalSendDigest, s.finalRecvDigest, s.encryptCounter, sealCount, sealNonce, sealAAD, sealPT, sealObj, sealOut
+//@   ensures twice: old(s.sendEOM) ==> err != nil && wrCount == old(wrCount)
+//@   ensures final_frame: err == nil ==> wrCount == old(wrCount) + 1 && wrLast[0] == 1 && s.sendEOM && s.sendBuffer == nil
+//@   ensures wf_kept: digestsWF(s) && buffersSeparate(s)
+
+//@ func (*Stream).StartMessage
+//@   props C01
+//@   assigns s.sendEOM, s.sendBuffer
+//@   ensures reset: !s.sendEOM && s.sendBuffer == nil
+
+//@ func (*Stream).StartMessageRead
+//@   props C01 C02 C13
+//@   requires wf: streamInv(s)
+//@   assigns s.inMessage, s.bytesRead, s.receiveBuffer, elems(s.receiveBuffer), s.totalMsgBytes, s.finishedRecvAAD, s.finalSendDigest, s.finalRecvDigest, s.decryptCounter, s.decryptIV, s.recvDigestWritten, openCount, openNonce, openAAD, openCT, openObj, openPT, openOKCount, hashWrites, rdCount, rdTotal, rdLast, rdFail, ctxClock, afCtx, afCount
+//@   ensures busy: old(s.inMessage) ==> err != nil && rdCount == old(rdCount)
+//@   ensures started: err == nil ==> s.inMessage && s.bytesRead == 0 && s.totalMsgBytes == len(s.receiveBuffer)
+//@   ensures authenticated: [C02] err == nil && old(sealingOn(s)) ==> openOKCount > old(openOKCount)
+//@   ensures not_started_on_error: [C02] err != nil ==> s.inMessage == old(s.inMessage)
+
+//@ func (*Stream).ReadMessageBytes (s, ctx, data) (n, err)
+//@   props C01 C02 C13
+//@   requires wf: streamInv(s)
+//@   requires noalias: ref(data) != ref(s.receiveBuffer) || ref(data) == 0
+//@   assigns data, s.bytesRead, s.receiveBuffer, elems(s.receiveBuffer), s.totalMsgBytes, s.finishedRecvAAD, s.finalSendDigest, s.finalRecvDigest, s.decryptCounter, s.decryptIV, s.recvDigestWritten, openCount, openNonce, openAAD, openCT, openObj, openPT, openOKCount, hashWrites, rdCount, rdTotal, rdLast, rdFail, ctxClock, afCtx, afCount
+//@   ensures idle: !old(s.inMessage) ==> err != nil && n == 0
+//@   ensures count: err == nil ==> 0 <= n && n <= len(data) && s.bytesRead == old(s.bytesRead) + n && s.bytesRead <= len(s.receiveBuffer)
+//@   ensures content: err == nil && old(s.bytesRead) < old(len(s.receiveBuffer)) ==> forall i :: 0 <= i && i < n ==> data[i] == old(s.receiveBuffer[s.bytesRead + i])
+//@   ensures err_nodata: err != nil ==> n == 0 && s.bytesRead == old(s.bytesRead)
+
+//@ func (*Stream).EndMessageRead
+//@   props C01
+//@   assigns s.inMessage, s.receiveBuffer, s.bytesRead, s.totalMsgBytes
+//@   ensures idle: !old(s.inMessage) ==> err != nil
+//@   ensures unconsumed: old(s.inMessage) && old(s.bytesRead) < old(s.totalMsgBytes) ==> err != nil && s.inMessage && s.bytesRead == old(s.bytesRead)
+//@   ensures done: err == nil ==> !s.inMessage && s.receiveBuffer == nil && s.bytesRead == 0 && s.totalMsgBytes == 0
